@@ -12,6 +12,11 @@ def nonceLen : Nat := 12
 def sealOverhead : Nat := 44
 /-- bytes added by Secure Message wrap: 52 (a 32-byte key becomes 84 bytes) -/
 def wrapOverhead : Nat := 52
+/-- messages of 2^32 bytes or more cannot be sealed or wrapped (32-bit length field; Themis has the
+same limit) -/
+def maxMsgLen : Nat := 2^32
+/-- length of an EC key container (public or private) -/
+def keyContainerLen : Nat := 45
 
 structure CryptoOps where
   /-- Secure Cell seal: `enc key ctx msg nonce` -/
@@ -26,6 +31,8 @@ structure CryptoOps where
   pubOf : Bytes → Bytes
   /-- is this a well-formed private key container -/
   validPriv : Bytes → Bool
+  /-- key-pair generation: private key container from 32 random bytes (`keys.New`) -/
+  privOfSeed : Bytes → Bytes
   hmac : Bytes → Bytes → Bytes
   sha256 : Bytes → Bytes
 
@@ -34,7 +41,7 @@ ideal authenticity (everything accepted was produced by `enc` for that key, cont
 structure SealLaws (c : CryptoOps) : Prop where
   dec_enc : ∀ k x m n ct, c.enc k x m n = some ct → c.dec k x ct = some m
   enc_of_dec : ∀ k x ct m, c.dec k x ct = some m → ∃ n, n.length = nonceLen ∧ c.enc k x m n = some ct
-  enc_none : ∀ k x m n, c.enc k x m n = none ↔ (m = [] ∨ k = [] ∨ n.length ≠ nonceLen)
+  enc_none : ∀ k x m n, c.enc k x m n = none ↔ (m = [] ∨ k = [] ∨ n.length ≠ nonceLen ∨ maxMsgLen ≤ m.length)
 
 /-- Length law: sealing adds exactly 44 bytes. NEVER assume together with `SealCommit`: a function
 cannot both add a constant number of bytes and be injective in keys and contexts of unbounded
@@ -55,10 +62,15 @@ structure MsgLaws (c : CryptoOps) : Prop where
   wrap_of_unwrap : ∀ a b ct m, c.validPriv a = true → c.validPriv b = true →
     c.unwrap b (c.pubOf a) ct = some m → ∃ n, n.length = nonceLen ∧ c.wrap a (c.pubOf b) m n = some ct
   wrap_none : ∀ a b m n, c.validPriv a = true → c.validPriv b = true →
-    (c.wrap a (c.pubOf b) m n = none ↔ (m = [] ∨ n.length ≠ nonceLen))
+    (c.wrap a (c.pubOf b) m n = none ↔ (m = [] ∨ n.length ≠ nonceLen ∨ maxMsgLen ≤ m.length))
 
 structure MsgLen (c : CryptoOps) : Prop where
   wrap_len : ∀ a p m n ct, c.wrap a p m n = some ct → ct.length = m.length + wrapOverhead
+  pub_len : ∀ a, c.validPriv a = true → (c.pubOf a).length = keyContainerLen
+
+/-- Key generation yields valid private keys. -/
+structure KeygenLaws (c : CryptoOps) : Prop where
+  valid_seed : ∀ d, d.length = 32 → c.validPriv (c.privOfSeed d) = true
 
 /-- Output length of the hashes. NEVER assume together with `HashInj` (pigeonhole: jointly
 unsatisfiable). Statements that need both the 32-byte layout and collision freedom take the latter
